@@ -250,6 +250,9 @@ struct Scenario {
     /// issues of one kind recorded at A against B before the first round (fewer than the three that make a peer bad:
     /// B stays an honest replication target)
     issues_against_b: usize,
+    /// B's disk refuses the record's file during round 1 (a directory squats on its name) and takes it from round 2 on:
+    /// the write of the first copy B fetches fails
+    b_disk_fails_in_round_1: bool,
 }
 
 fn scenarios() -> Vec<Scenario> {
@@ -275,28 +278,32 @@ fn scenarios() -> Vec<Scenario> {
     let covers_record_not_target = dist(&a_id) + ant_evm::U256::from(1u8);
     assert!(covers_record_not_target < dist(&b_id));
     vec![
-        Scenario { name: "chunk on A only; A's responsible range covers the chunk but is narrower than the chunk's distance from B", nodes: 2, seeds: vec![(0, rec::chunk_record(&gap_chunk))], key: rec::chunk_key(&gap_chunk), kind: "chunk", first_write_pending: false, late: vec![], spacing: 120, rounds: 3, a_range: Some(covers_record_not_target), issues_against_b: 0 },
-        Scenario { name: "chunk on A only; A's responsible range is the narrowest possible", nodes: 2, seeds: vec![(0, rec::chunk_record(&chunk))], key: rec::chunk_key(&chunk), kind: "chunk", first_write_pending: false, late: vec![], spacing: 120, rounds: 3, a_range: Some(ant_evm::U256::from(1u8)), issues_against_b: 0 },
-        Scenario { name: "register ops{0} on A, ops{1} on B; A's responsible range is the narrowest possible", nodes: 2, seeds: vec![(0, rec::reg_record(&fx.with_ops(&[0]))), (1, rec::reg_record(&fx.with_ops(&[1])))], key: rec::reg_key(&fx.base), kind: "register", first_write_pending: false, late: vec![], spacing: 120, rounds: 3, a_range: Some(ant_evm::U256::from(1u8)), issues_against_b: 0 },
-        Scenario { name: "chunk on A only; A has recorded one transient issue against B", nodes: 2, seeds: vec![(0, rec::chunk_record(&chunk))], key: rec::chunk_key(&chunk), kind: "chunk", first_write_pending: false, late: vec![], spacing: 120, rounds: 3, a_range: None, issues_against_b: 1 },
-        Scenario { name: "register ops{0} on A, ops{1} on B; A has recorded two transient issues against B", nodes: 2, seeds: vec![(0, rec::reg_record(&fx.with_ops(&[0]))), (1, rec::reg_record(&fx.with_ops(&[1])))], key: rec::reg_key(&fx.base), kind: "register", first_write_pending: false, late: vec![], spacing: 120, rounds: 3, a_range: None, issues_against_b: 2 },
-        Scenario { name: "chunk on A only", nodes: 2, seeds: vec![(0, rec::chunk_record(&chunk))], key: rec::chunk_key(&chunk), kind: "chunk", first_write_pending: false, late: vec![], spacing: 120, rounds: 3, a_range: None, issues_against_b: 0 },
-        Scenario { name: "chunk on A only, 3 nodes", nodes: 3, seeds: vec![(0, rec::chunk_record(&chunk))], key: rec::chunk_key(&chunk), kind: "chunk", first_write_pending: false, late: vec![], spacing: 120, rounds: 3, a_range: None, issues_against_b: 0 },
-        Scenario { name: "register ops{0} on A, ops{1} on B", nodes: 2, seeds: vec![(0, rec::reg_record(&fx.with_ops(&[0]))), (1, rec::reg_record(&fx.with_ops(&[1])))], key: rec::reg_key(&fx.base), kind: "register", first_write_pending: false, late: vec![], spacing: 120, rounds: 3, a_range: None, issues_against_b: 0 },
-        Scenario { name: "register ops{0,1} on A, ops{1} on B", nodes: 2, seeds: vec![(0, rec::reg_record(&fx.with_ops(&[0, 1]))), (1, rec::reg_record(&fx.with_ops(&[1])))], key: rec::reg_key(&fx.base), kind: "register", first_write_pending: false, late: vec![], spacing: 120, rounds: 3, a_range: None, issues_against_b: 0 },
-        Scenario { name: "transactions [t1] on A, [t2] on B", nodes: 2, seeds: vec![(0, rec::txs_record(tk.clone(), &[t[0].clone()])), (1, rec::txs_record(tk.clone(), &[t[1].clone()]))], key: tk.clone(), kind: "transaction", first_write_pending: false, late: vec![], spacing: 120, rounds: 3, a_range: None, issues_against_b: 0 },
-        Scenario { name: "transactions [t1] on A, [t2] on B, [t3] on C", nodes: 3, seeds: vec![(0, rec::txs_record(tk.clone(), &[t[0].clone()])), (1, rec::txs_record(tk.clone(), &[t[1].clone()])), (2, rec::txs_record(tk.clone(), &[t[2].clone()]))], key: tk.clone(), kind: "transaction", first_write_pending: false, late: vec![], spacing: 120, rounds: 3, a_range: None, issues_against_b: 0 },
-        Scenario { name: "scratchpad c=1 on A, c=3 on B", nodes: 2, seeds: vec![(0, rec::pad_record(&p1)), (1, rec::pad_record(&p3))], key: rec::pad_key(&p1), kind: "scratchpad", first_write_pending: false, late: vec![], spacing: 120, rounds: 3, a_range: None, issues_against_b: 0 },
-        Scenario { name: "scratchpad c=3 on A only", nodes: 2, seeds: vec![(0, rec::pad_record(&p3))], key: rec::pad_key(&p3), kind: "scratchpad", first_write_pending: false, late: vec![], spacing: 120, rounds: 3, a_range: None, issues_against_b: 0 },
+        Scenario { name: "chunk on A only; A's responsible range covers the chunk but is narrower than the chunk's distance from B", nodes: 2, seeds: vec![(0, rec::chunk_record(&gap_chunk))], key: rec::chunk_key(&gap_chunk), kind: "chunk", first_write_pending: false, late: vec![], spacing: 120, rounds: 3, a_range: Some(covers_record_not_target), issues_against_b: 0, b_disk_fails_in_round_1: false },
+        Scenario { name: "chunk on A only; A's responsible range is the narrowest possible", nodes: 2, seeds: vec![(0, rec::chunk_record(&chunk))], key: rec::chunk_key(&chunk), kind: "chunk", first_write_pending: false, late: vec![], spacing: 120, rounds: 3, a_range: Some(ant_evm::U256::from(1u8)), issues_against_b: 0, b_disk_fails_in_round_1: false },
+        Scenario { name: "register ops{0} on A, ops{1} on B; A's responsible range is the narrowest possible", nodes: 2, seeds: vec![(0, rec::reg_record(&fx.with_ops(&[0]))), (1, rec::reg_record(&fx.with_ops(&[1])))], key: rec::reg_key(&fx.base), kind: "register", first_write_pending: false, late: vec![], spacing: 120, rounds: 3, a_range: Some(ant_evm::U256::from(1u8)), issues_against_b: 0, b_disk_fails_in_round_1: false },
+        Scenario { name: "chunk on A only; A has recorded one transient issue against B", nodes: 2, seeds: vec![(0, rec::chunk_record(&chunk))], key: rec::chunk_key(&chunk), kind: "chunk", first_write_pending: false, late: vec![], spacing: 120, rounds: 3, a_range: None, issues_against_b: 1, b_disk_fails_in_round_1: false },
+        Scenario { name: "register ops{0} on A, ops{1} on B; A has recorded two transient issues against B", nodes: 2, seeds: vec![(0, rec::reg_record(&fx.with_ops(&[0]))), (1, rec::reg_record(&fx.with_ops(&[1])))], key: rec::reg_key(&fx.base), kind: "register", first_write_pending: false, late: vec![], spacing: 120, rounds: 3, a_range: None, issues_against_b: 2, b_disk_fails_in_round_1: false },
+        Scenario { name: "chunk on A only", nodes: 2, seeds: vec![(0, rec::chunk_record(&chunk))], key: rec::chunk_key(&chunk), kind: "chunk", first_write_pending: false, late: vec![], spacing: 120, rounds: 3, a_range: None, issues_against_b: 0, b_disk_fails_in_round_1: false },
+        Scenario { name: "chunk on A only, 3 nodes", nodes: 3, seeds: vec![(0, rec::chunk_record(&chunk))], key: rec::chunk_key(&chunk), kind: "chunk", first_write_pending: false, late: vec![], spacing: 120, rounds: 3, a_range: None, issues_against_b: 0, b_disk_fails_in_round_1: false },
+        Scenario { name: "register ops{0} on A, ops{1} on B", nodes: 2, seeds: vec![(0, rec::reg_record(&fx.with_ops(&[0]))), (1, rec::reg_record(&fx.with_ops(&[1])))], key: rec::reg_key(&fx.base), kind: "register", first_write_pending: false, late: vec![], spacing: 120, rounds: 3, a_range: None, issues_against_b: 0, b_disk_fails_in_round_1: false },
+        Scenario { name: "register ops{0,1} on A, ops{1} on B", nodes: 2, seeds: vec![(0, rec::reg_record(&fx.with_ops(&[0, 1]))), (1, rec::reg_record(&fx.with_ops(&[1])))], key: rec::reg_key(&fx.base), kind: "register", first_write_pending: false, late: vec![], spacing: 120, rounds: 3, a_range: None, issues_against_b: 0, b_disk_fails_in_round_1: false },
+        Scenario { name: "transactions [t1] on A, [t2] on B", nodes: 2, seeds: vec![(0, rec::txs_record(tk.clone(), &[t[0].clone()])), (1, rec::txs_record(tk.clone(), &[t[1].clone()]))], key: tk.clone(), kind: "transaction", first_write_pending: false, late: vec![], spacing: 120, rounds: 3, a_range: None, issues_against_b: 0, b_disk_fails_in_round_1: false },
+        Scenario { name: "transactions [t1] on A, [t2] on B, [t3] on C", nodes: 3, seeds: vec![(0, rec::txs_record(tk.clone(), &[t[0].clone()])), (1, rec::txs_record(tk.clone(), &[t[1].clone()])), (2, rec::txs_record(tk.clone(), &[t[2].clone()]))], key: tk.clone(), kind: "transaction", first_write_pending: false, late: vec![], spacing: 120, rounds: 3, a_range: None, issues_against_b: 0, b_disk_fails_in_round_1: false },
+        Scenario { name: "scratchpad c=1 on A, c=3 on B", nodes: 2, seeds: vec![(0, rec::pad_record(&p1)), (1, rec::pad_record(&p3))], key: rec::pad_key(&p1), kind: "scratchpad", first_write_pending: false, late: vec![], spacing: 120, rounds: 3, a_range: None, issues_against_b: 0, b_disk_fails_in_round_1: false },
+        Scenario { name: "scratchpad c=3 on A only", nodes: 2, seeds: vec![(0, rec::pad_record(&p3))], key: rec::pad_key(&p3), kind: "scratchpad", first_write_pending: false, late: vec![], spacing: 120, rounds: 3, a_range: None, issues_against_b: 0, b_disk_fails_in_round_1: false },
         // A has accepted its copy but the disk write is still pending when B's advertisement arrives
-        Scenario { name: "transactions [t1] on A (write pending), [t2] on B", nodes: 2, seeds: vec![(0, rec::txs_record(tk.clone(), &[t[0].clone()])), (1, rec::txs_record(tk.clone(), &[t[1].clone()]))], key: tk.clone(), kind: "transaction", first_write_pending: true, late: vec![], spacing: 120, rounds: 3, a_range: None, issues_against_b: 0 },
-        Scenario { name: "register ops{0} on A (write pending), ops{1} on B", nodes: 2, seeds: vec![(0, rec::reg_record(&fx.with_ops(&[0]))), (1, rec::reg_record(&fx.with_ops(&[1])))], key: rec::reg_key(&fx.base), kind: "register", first_write_pending: true, late: vec![], spacing: 120, rounds: 3, a_range: None, issues_against_b: 0 },
-        Scenario { name: "chunk on A only (write pending)", nodes: 2, seeds: vec![(0, rec::chunk_record(&chunk))], key: rec::chunk_key(&chunk), kind: "chunk", first_write_pending: true, late: vec![], spacing: 120, rounds: 3, a_range: None, issues_against_b: 0 },
+        Scenario { name: "transactions [t1] on A (write pending), [t2] on B", nodes: 2, seeds: vec![(0, rec::txs_record(tk.clone(), &[t[0].clone()])), (1, rec::txs_record(tk.clone(), &[t[1].clone()]))], key: tk.clone(), kind: "transaction", first_write_pending: true, late: vec![], spacing: 120, rounds: 3, a_range: None, issues_against_b: 0, b_disk_fails_in_round_1: false },
+        Scenario { name: "register ops{0} on A (write pending), ops{1} on B", nodes: 2, seeds: vec![(0, rec::reg_record(&fx.with_ops(&[0]))), (1, rec::reg_record(&fx.with_ops(&[1])))], key: rec::reg_key(&fx.base), kind: "register", first_write_pending: true, late: vec![], spacing: 120, rounds: 3, a_range: None, issues_against_b: 0, b_disk_fails_in_round_1: false },
+        Scenario { name: "chunk on A only (write pending)", nodes: 2, seeds: vec![(0, rec::chunk_record(&chunk))], key: rec::chunk_key(&chunk), kind: "chunk", first_write_pending: true, late: vec![], spacing: 120, rounds: 3, a_range: None, issues_against_b: 0, b_disk_fails_in_round_1: false },
         // records accepted after the first round, with rounds 31 s apart (inside the 45 s per-target throttle, outside the 30 s
         // per-node one — the rhythm of a node whose routing table keeps changing) and 46 s apart
-        Scenario { name: "chunk on A, a second chunk on A after round 1 (rounds 31 s apart)", nodes: 2, seeds: vec![(0, rec::chunk_record(&chunk))], key: rec::chunk_key(&chunk2), kind: "chunk", first_write_pending: false, late: vec![(0, rec::chunk_record(&chunk2))], spacing: 31, rounds: 6, a_range: None, issues_against_b: 0 },
-        Scenario { name: "chunk on A, a second chunk on A after round 1 (rounds 46 s apart)", nodes: 2, seeds: vec![(0, rec::chunk_record(&chunk))], key: rec::chunk_key(&chunk2), kind: "chunk", first_write_pending: false, late: vec![(0, rec::chunk_record(&chunk2))], spacing: 46, rounds: 4, a_range: None, issues_against_b: 0 },
-        Scenario { name: "register ops{0} on A and B, ops{0,1} accepted by A after round 1 (rounds 31 s apart)", nodes: 2, seeds: vec![(0, rec::reg_record(&fx.with_ops(&[0]))), (1, rec::reg_record(&fx.with_ops(&[0])))], key: rec::reg_key(&fx.base), kind: "register", first_write_pending: false, late: vec![(0, rec::reg_record(&fx.with_ops(&[0, 1])))], spacing: 31, rounds: 6, a_range: None, issues_against_b: 0 },
+        Scenario { name: "chunk on A, a second chunk on A after round 1 (rounds 31 s apart)", nodes: 2, seeds: vec![(0, rec::chunk_record(&chunk))], key: rec::chunk_key(&chunk2), kind: "chunk", first_write_pending: false, late: vec![(0, rec::chunk_record(&chunk2))], spacing: 31, rounds: 6, a_range: None, issues_against_b: 0, b_disk_fails_in_round_1: false },
+        Scenario { name: "chunk on A, a second chunk on A after round 1 (rounds 46 s apart)", nodes: 2, seeds: vec![(0, rec::chunk_record(&chunk))], key: rec::chunk_key(&chunk2), kind: "chunk", first_write_pending: false, late: vec![(0, rec::chunk_record(&chunk2))], spacing: 46, rounds: 4, a_range: None, issues_against_b: 0, b_disk_fails_in_round_1: false },
+        Scenario { name: "register ops{0} on A and B, ops{0,1} accepted by A after round 1 (rounds 31 s apart)", nodes: 2, seeds: vec![(0, rec::reg_record(&fx.with_ops(&[0]))), (1, rec::reg_record(&fx.with_ops(&[0])))], key: rec::reg_key(&fx.base), kind: "register", first_write_pending: false, late: vec![(0, rec::reg_record(&fx.with_ops(&[0, 1])))], spacing: 31, rounds: 6, a_range: None, issues_against_b: 0, b_disk_fails_in_round_1: false },
+        // a transient fault at the receiving neighbour: its first write of the fetched copy fails; later rounds must repair that
+        Scenario { name: "chunk on A only; B's disk refuses the file during round 1", nodes: 2, seeds: vec![(0, rec::chunk_record(&chunk))], key: rec::chunk_key(&chunk), kind: "chunk", first_write_pending: false, late: vec![], spacing: 120, rounds: 4, a_range: None, issues_against_b: 0, b_disk_fails_in_round_1: true },
+        Scenario { name: "scratchpad c=3 on A only; B's disk refuses the file during round 1", nodes: 2, seeds: vec![(0, rec::pad_record(&p3))], key: rec::pad_key(&p3), kind: "scratchpad", first_write_pending: false, late: vec![], spacing: 120, rounds: 4, a_range: None, issues_against_b: 0, b_disk_fails_in_round_1: true },
+        Scenario { name: "register ops{0,1} on A only; B's disk refuses the file during round 1", nodes: 2, seeds: vec![(0, rec::reg_record(&fx.with_ops(&[0, 1])))], key: rec::reg_key(&fx.base), kind: "register", first_write_pending: false, late: vec![], spacing: 120, rounds: 4, a_range: None, issues_against_b: 0, b_disk_fails_in_round_1: true },
     ]
 }
 
@@ -388,9 +395,19 @@ fn run_scenario(run: &Run, sc: &Scenario, bound: usize, rounds: usize) {
             }
             // nodes that hold the record under sc.key by an accepted upload (they must advertise it)
             let seeded: Vec<usize> = sc.seeds.iter().chain(sc.late.iter()).filter(|(_, r)| r.key == sc.key).map(|(n, _)| *n).collect();
-            for round in 0..rounds {
+            let squat = cl.roots[1].join("record_store").join(hex::encode(sc.key.as_ref()));
+            if sc.b_disk_fails_in_round_1 {
+                std::fs::create_dir_all(&squat).expect("squat");
+            }
+            for round in 0..rounds.max(sc.rounds) {
                 cl.round(ch);
                 if round == 0 {
+                    if sc.b_disk_fails_in_round_1 {
+                        let _ = std::fs::remove_dir(&squat);
+                        if squat.exists() {
+                            run.machinery_error("C09: the squatting directory could not be removed again (B wrote into it?)");
+                        }
+                    }
                     cl.release_held();
                     for (n, r) in &sc.late {
                         cl.seed(*n, r.clone());
@@ -541,7 +558,7 @@ fn full_node_divergence(run: &Run, bound: usize) {
         ("full node A (capacity 2) whose farthest record is a transaction set that B holds with another entry", "transaction", tk.clone(), rec::txs_record(tk.clone(), &[t[0].clone()]), rec::txs_record(tk.clone(), &[t[1].clone()])),
     ];
     for (name, kind, key, on_a, on_b) in cases {
-        let sc = Scenario { name, nodes: 2, seeds: vec![(0, on_a.clone()), (1, on_b.clone())], key: key.clone(), kind, first_write_pending: false, late: vec![], spacing: 120, rounds: 3, a_range: None, issues_against_b: 0 };
+        let sc = Scenario { name, nodes: 2, seeds: vec![(0, on_a.clone()), (1, on_b.clone())], key: key.clone(), kind, first_write_pending: false, late: vec![], spacing: 120, rounds: 3, a_range: None, issues_against_b: 0, b_disk_fails_in_round_1: false };
         let want = expected_converged(&sc);
         explore(
             run,
@@ -596,7 +613,7 @@ pub fn main(tier: Option<&str>) {
     run.rule(
         "2-3 real nodes (SwarmDriver + Node) wired in-process, mutual routing-table neighbours; seeds through the real replication-store \
          path: a chunk on A only, divergent registers (disjoint and nested op sets), divergent transaction sets (2 and 3 nodes), scratchpads \
-         with counters 1 and 3, a scratchpad on A only, the same with A's disk write held back during round 1, records accepted by A after the first round, and a full node A (capacity 2, fetcher told so by a refused third record) whose farthest record is a register / transaction set that B holds in another version, and three scenarios with a responsible range set on A (covering the record but narrower than its distance from B; the narrowest possible); then 3 rounds of \
+         with counters 1 and 3, a scratchpad on A only, the same with A's disk write held back during round 1, records accepted by A after the first round, and a full node A (capacity 2, fetcher told so by a refused third record) whose farthest record is a register / transaction set that B holds in another version, and three scenarios with a responsible range set on A (covering the record but narrower than its distance from B; the narrowest possible), and three in which the receiving neighbour's disk refuses the record's file during the first round only (chunk, scratchpad, register; 4 rounds); then 3 rounds of \
          interval replication on every node 120 s apart (6 rounds 31 s apart / 4 rounds 46 s apart for the late-record scenarios); every \
          delivery order of the in-flight requests/responses with <=1(2) deviations from FIFO. Plus advertisements from a stranger and from self, and — on a node whose routing table holds 45 peers — one-key (record next to the sender) and two-key lists from every peer outside / among the K closest.",
     );
